@@ -140,6 +140,17 @@ theorem field_roundtrip_summary {F : Type} [Field F] (narrow : F → F) (isSenti
     toSI o u m (if neg then o.neg (fromSI o u m x) else fromSI o u m x) = if neg then -x else x :=
   smry_roundtrip narrow isSentinel u hu m hoff neg x
 
+/-- Nested conversions (class `exactScale`; SCON StaticDFacCorrCoeff = [D]·[viscosity], written through the helper
+`staticDFacCorrCoeff` which the translator inlines): with offset-free measures the reader's
+`to_si(m1, to_si(m2, …))` returns the value the writer's `from_si(m1, from_si(m2, …))` was given; likewise the k-fold
+length-unit factor the MSW writer uses for areas and volumes. -/
+theorem field_roundtrip_chain {F : Type} [Field F] (narrow : F → F) (isSentinel : F → Bool) (u : UnitSys F)
+    (hu : u.Good) (ms : List String) (hoff : ∀ m ∈ ms, u.off m = 0) (x : F) (m : String) (k : Nat) (hm : u.off m = 0) :
+    toSIChain (fieldOps narrow isSentinel) u ms (fromSIChain (fieldOps narrow isSentinel) u ms x) = x ∧
+    toSIChain (fieldOps narrow isSentinel) u (List.replicate k m)
+      ((fieldOps narrow isSentinel).mul (fromSIChain (fieldOps narrow isSentinel) u (List.replicate k m) ((fieldOps narrow isSentinel).ofInt 1)) x) = x :=
+  ⟨chain_roundtrip narrow isSentinel u hu ms hoff x, unitpow_roundtrip narrow isSentinel u hu m k hm x⟩
+
 /-- Enum-coded connection fields: direction and open/shut state decode to what was encoded. -/
 theorem field_roundtrip_enum_tables :
     (∀ nv ∈ (connEnums.lookup "Direction").getD [],
@@ -231,7 +242,8 @@ example : validSrcI .plus1 41 := by simp [validSrcI, Pre.core]
 example : (encI .plus1 41).bind (decI .minus1) = some 41 := by decide
 example : classify "float" (.fromSI "length") (.toSI "length") = .exact := by decide
 example : classify "double" (.fromSI "length") (.toSI "pressure") = .mismatch := by decide
-example : (pairs writer reader).length = 134 ∧ (pairs writer loader).length = 49 := by decide +kernel
+example : (pairs writer reader).length = 135 ∧ (pairs writer loader).length = 49 := by decide +kernel
+example : ((pairs writer reader).filter fun p => pairCls p = .exactScale).length = 1 := by decide +kernel
 example : ((pairs writer reader).filter fun p => pairCls p = .exact).length = 68 := by decide +kernel
 
 -- a unit system satisfying `Good` over ℚ (length in feet: 1/0.3048)
